@@ -554,6 +554,80 @@ def run_annotated(cname, depth, res):
   res.outcome('annotated')
 
 
+def run_midway_field(kind, res):
+  """A plain frame between two configurables completes the exception (sets a field its message is rendered from, reads
+  fields the class serves through its own __getattr__): the caller sees the completed exception, message included."""
+  desc = ['midway_field', kind]
+  harness.hard_reset()
+  res.case(tuple(desc), True)
+
+  class SlotMsg(Exception):
+    __slots__ = ('where',)
+
+    def __init__(self, what):
+      super().__init__(what)
+      self.where = None
+
+    def __str__(self):
+      return '%s at %s' % (self.args[0], self.where)
+
+  class ApiError(Exception):
+    """Serves the fields of its response body through __getattr__ (they are in neither vars() nor dir())."""
+
+    def __init__(self, msg, body):
+      super().__init__(msg)
+      self._body = body
+
+    def __getattr__(self, name):
+      try:
+        return self.__dict__['_body'][name]
+      except KeyError:
+        raise AttributeError(name) from None
+
+  @gin.configurable(module='c17')
+  def inner_reader():
+    if kind == 'oserror_filename':
+      raise FileNotFoundError(2, 'No such file or directory')
+    if kind == 'slot_in_str':
+      raise SlotMsg('parse error')
+    raise ApiError('bad request', {'request_id': 'req-7f3a', 'status': 400})
+
+  def plain_mid():
+    try:
+      inner_reader()
+    except OSError as e:
+      e.filename = 'tables/users.csv'
+      raise
+    except SlotMsg as e:
+      e.where = 'line 7'
+      raise
+
+  @gin.configurable(module='c17')
+  def pipeline():
+    plain_mid()
+  try:
+    pipeline()
+    res.violation('not_raised', '%r: nothing raised' % (desc,), desc)
+    return
+  except Exception as e:  # pylint: disable=broad-except
+    got = e
+  text = str(got)
+  if kind == 'oserror_filename':
+    ok = isinstance(got, FileNotFoundError) and got.filename == 'tables/users.csv' and \
+        text.startswith("[Errno 2] No such file or directory: 'tables/users.csv'")
+  elif kind == 'slot_in_str':
+    ok = isinstance(got, SlotMsg) and got.where == 'line 7' and text.startswith('parse error at line 7')
+  else:
+    ok = isinstance(got, ApiError) and getattr(got, 'request_id', None) == 'req-7f3a' and getattr(got, 'status', None) == 400 \
+        and text.startswith('bad request')
+  if not ok or "configurable 'inner_reader'" not in text or "configurable 'pipeline'" not in text:
+    res.violation('message' if kind != 'getattr_hook' else 'attr_lost:getattr_hook', '%r: the caller receives %r with str() %r' %
+                  (desc, got, text), desc)
+  else:
+    res.w('completed_midway_seen_by_caller')
+  res.outcome('midway_field')
+
+
 # ------------------------------------------------------------------ exceptions consumed by the interpreter itself
 # (the interpreter reads some type-specific fields straight from the C struct, not through attribute lookup; run in a
 #  subprocess because a wrong struct can crash the process)
@@ -630,7 +704,50 @@ except FileNotFoundError as e:
 print(json.dumps(out))
 ''',
 }
+INTERP['exception_group_subclass_with_derive'] = '''
+class MyGroup(ExceptionGroup):
+  def derive(self, excs):
+    return type(self)(self.message, excs)
+@gin.configurable
+def grp():
+  raise MyGroup('g', [ValueError(1), TypeError(2)])
+@gin.configurable
+def outer():
+  grp()
+seen = []
+for f in (grp, outer):
+  try:
+    try:
+      try:
+        f()
+      except* ValueError as eg:
+        seen.append(['ValueError', isinstance(eg, MyGroup), [type(x).__name__ for x in eg.exceptions]])
+    except* TypeError as eg:
+      seen.append(['TypeError', isinstance(eg, MyGroup), [type(x).__name__ for x in eg.exceptions]])
+  except BaseException as e:
+    seen.append(['escaped', type(e).__name__])
+print(json.dumps(seen))
+'''
+INTERP['typeerror_with_braces_in_caller_keywords'] = '''
+@gin.configurable
+def f2(a, b=2, **kw):
+  raise TypeError('boom')
+@gin.configurable
+def f3(a, b=2, **kw):
+  return a
+out = []
+for fn in (f2, f3):
+  for k in ('{oops}', '{}', '{0.__class__}', 'plain'):
+    try:
+      fn(**{k: 1})
+      out.append('no exception')
+    except Exception as e:
+      out.append(type(e).__name__)
+print(json.dumps(out))
+'''
 INTERP_WANT = {
+    'exception_group_subclass_with_derive': [['ValueError', True, ['ValueError']], ['TypeError', True, ['TypeError']]] * 2,
+    'typeerror_with_braces_in_caller_keywords': ['TypeError'] * 8,
     'stopiteration_yield_from': 42, 'stopiteration_nested_yield_from': 'v',
     'exception_group_except_star': [['ValueError', ['ValueError']], ['KeyError', ['KeyError']]],
     'syntaxerror_format': ['f.py', 3, 5, 'x = = 1', True, True],
@@ -659,6 +776,8 @@ def run_interp(name, res):
 
 
 def gen(tier):
+  for kind in ('oserror_filename', 'slot_in_str', 'getattr_hook'):
+    yield ['midway_field', kind]
   for name in INTERP:
     yield ['interp', name]
   for c, s, d in itertools.product(sorted(all_factories()), SITES, DEPTHS):
@@ -693,6 +812,8 @@ def run_shard(i, tier):
     try:
       if c[0] == 'interp':
         run_interp(c[1], res)
+      elif c[0] == 'midway_field':
+        run_midway_field(c[1], res)
       elif c[0] == 'seq':
         run_seq(c[1], c[2], res)
       elif c[0] == 'annotated':
@@ -713,6 +834,8 @@ def replay(c):
   res = core.Result()
   if c[0] == 'interp':
     run_interp(c[1], res)
+  elif c[0] == 'midway_field':
+    run_midway_field(c[1], res)
   elif c[0] == 'seq':
     run_seq(c[1], c[2], res)
   elif c[0] == 'annotated':
